@@ -1624,3 +1624,106 @@ inverse = _inverse_any
 def triu_indices(row, col, offset=0, dtype=None, device=None):
     r, c = np.triu_indices(builtins_int(row), k=builtins_int(offset), m=builtins_int(col))
     return tensor([[builtins_int(v) for v in r], [builtins_int(v) for v in c]])
+
+
+# ---- torch.nn.Module / ModuleDict / Parameter machinery (spatial/base.py, parametric.py, composite.py,
+# transformer.py: constructors, register_buffer, forward pre-hooks, __call__) -- appended for the C06 unit.
+# Only what those files use; attributes are plain Python attributes (no _parameters/_buffers routing). ----
+import collections as _collections
+
+
+class _ModuleDict(_collections.OrderedDict):
+    pass
+
+
+class _HookHandle:
+    def __init__(self, hooks, fn):
+        self._hooks, self._fn = hooks, fn
+
+    def remove(self):
+        if self._fn in self._hooks:
+            self._hooks.remove(self._fn)
+
+
+def _module_init(self, *args, **kwargs):
+    self.__dict__.setdefault("_sym_pre_hooks", [])
+    self.__dict__.setdefault("_sym_buffers", [])
+
+
+def _module_register_buffer(self, name, tensor, persistent=True):
+    self.__dict__.setdefault("_sym_buffers", [])
+    if name not in self._sym_buffers:
+        self._sym_buffers.append(name)
+    setattr(self, name, tensor)
+
+
+def _module_register_forward_pre_hook(self, fn):
+    self.__dict__.setdefault("_sym_pre_hooks", []).append(fn)
+    return _HookHandle(self._sym_pre_hooks, fn)
+
+
+def _module_call(self, *args, **kwargs):
+    for h in list(self.__dict__.get("_sym_pre_hooks", [])):
+        h(self, args)
+    return self.forward(*args, **kwargs)
+
+
+def _module_named_buffers(self):
+    return [(n, getattr(self, n)) for n in self.__dict__.get("_sym_buffers", []) if hasattr(self, n)]
+
+
+def _module_buffers(self):
+    return [b for _, b in _module_named_buffers(self)]
+
+
+def _module_parameters(self):
+    return [v for v in self.__dict__.values() if isinstance(v, _NN.Parameter)]
+
+
+def _module_to(self, *args, **kwargs):
+    return self
+
+
+if not hasattr(_NN.Module, "register_buffer"):
+    _NN.Module.__init__ = _module_init
+    _NN.Module.register_buffer = _module_register_buffer
+    _NN.Module.register_forward_pre_hook = _module_register_forward_pre_hook
+    _NN.Module.__call__ = _module_call
+    _NN.Module.named_buffers = _module_named_buffers
+    _NN.Module.buffers = _module_buffers
+    _NN.Module.parameters = _module_parameters
+    _NN.Module.to = _module_to
+if not hasattr(_NN, "ModuleDict"):
+    _NN.ModuleDict = _ModuleDict
+
+
+class SymParameter(Tensor, _NN.Parameter):
+    """a Tensor that also answers isinstance(., torch.nn.Parameter); results of operations are plain Tensors"""
+
+    def __init__(self, data, requires_grad=True):
+        Tensor.__init__(self, data.a if isinstance(data, Tensor) else data)
+        self.requires_grad = requires_grad
+
+
+# ---- torch.__version__ / meshgrid / flip (core/grid.py Grid.coords) -- appended for the C06 unit ----
+__version__ = "2.0.0"
+
+
+def meshgrid(*tensors, indexing="ij"):
+    if len(tensors) == 1 and isinstance(tensors[0], (list, tuple)):
+        tensors = tuple(tensors[0])
+    if indexing != "ij":
+        raise TraceError("meshgrid with indexing other than 'ij'")
+    arrs = [t.a for t in tensors]
+    shape = tuple(a.shape[0] for a in arrs)
+    outs = []
+    for k, a in enumerate(arrs):
+        o = np.empty(shape, dtype=object)
+        for idx in np.ndindex(*shape):
+            o[idx] = a[idx[k]]
+        outs.append(Tensor(o))
+    return tuple(outs)
+
+
+def flip(x, dims):
+    return x.flip(dims)
